@@ -118,6 +118,7 @@ def roundtrip(g, n, kinds, sidp, hist=False, pad_sweep=False):
 
 def c02(g, tier):
     n = 1500 if tier == "quick" else 40000
+    yield from long_history_sessions(g, "C02/long", ("sr", "rr"))
     yield from roundtrip(g, n, ["sr", "rr"], "C02/rand", hist=True)
     # 31 blocks with extreme loss fields
     for i, (cl, fl) in enumerate(itertools.product([[0, 0], [0, 1], [255, 65535]], [0, 1, 255])):
@@ -154,8 +155,20 @@ def c03(g, tier):
                 i += 1
 
 
+def long_history_sessions(g, sidp, kinds=("sr",)):
+    """more than 65536 setter calls on one live builder between two observations (counters that wrap)"""
+    for kind in kinds:
+        for extra in (0, 1):
+            ops = [reset(f"{sidp}/{kind}/{extra}")] + calls_to_ops(kind, [{"c": "new", "ssrc": g.u32()}, {"c": "padding", "v": 8}]) + [{"op": "calc_size"}]
+            ops += [{"op": "call", "c": {"c": "padding", "v": 4 if i % 2 else 12}} for i in range(65535 + extra)]
+            ops += [{"op": "call", "c": {"c": "padding", "v": 4}}, {"op": "calc_size"}, {"op": "write_into", "rel": 0, "len": 64, "fill": 1},
+                    {"op": "parse", "kind": kind, "src": "image"}]
+            yield ops
+
+
 def c03_extra(g, tier):
     yield from midsize_sessions(g, "C03/mid", ["sdes"])
+    yield from giant_chunk_sessions(g, "C03/giant", build=True)
     yield from item_type_sweep(g, "C03/types")
 
 
@@ -380,6 +393,7 @@ def c16(g, tier):
 
 def c20(g, tier):
     n = 3000 if tier == "quick" else 50000
+    yield from long_history_sessions(g, "C20/long", ("sr",))
     r0 = g.r
     for i in range(60 if tier == "quick" else 1500):
         k = r0.randrange(18, 64)
@@ -574,6 +588,22 @@ def reuse_sessions(g, n, sidp):
         k2, c2 = g.builder(k1 if k1 != "custom" else None, small=True)
         yield [reset(f"{sidp}/rand/{i}")] + calls_to_ops(k1, c1) + [{"op": "calc_size"}, {"op": "write_into", "rel": 8, "len": 64, "fill": 1}] + \
             calls_to_ops(k2, c2) + [{"op": "calc_size"}, {"op": "write_into", "rel": 8, "len": 64, "fill": 4}, {"op": "write_into", "rel": 8, "len": 64, "fill": 0}]
+
+def giant_chunk_sessions(g, sidp, build=False):
+    """one SDES chunk with 65536 and more (empty) items: counters of 16 bits wrap"""
+    for k in (65535, 65536, 70001):
+        if build:
+            ch = {"ssrc": [7, 7], "adds": [{"owned": False, "item": [{"c": "new", "type": 1 + i % 7, "value": []}]} for i in range(k)]}
+            yield build_session(f"{sidp}/build/{k}", "sdes", [{"c": "new"}, {"c": "add_chunk", "v": ch}], rt=True)
+        else:
+            body = [0, 7, 0, 7]
+            for i in range(k):
+                body += [1 + i % 7, 0]
+            body += [0]
+            body += [0] * (-len(body) % 4)
+            b = hdr(2, False, 1, 202, (4 + len(body)) // 4 - 1) + body
+            yield [reset(f"{sidp}/parse/{k}"), {"op": "parse", "kind": "sdes", "b": b}]
+
 
 def item_type_sweep(g, sidp):
     """every SDES item type with an empty, a one-byte and a three-byte value: parsed from bytes and built"""
@@ -896,6 +926,7 @@ def c01(g, tier):
     yield from item_type_sweep(g, "C01/types")
     yield from concat_sessions(g, 100 if q else 3000, "C01/concat")
     yield from many_chunks_sessions(g, "C01/chunks")
+    yield from giant_chunk_sessions(g, "C01/giant")
     yield from reparse_sessions(g, 150 if q else 4000, "C01/reparse")
     yield from nack_pair_sessions(g, 100 if q else 3000, "C01/npair")
 
@@ -962,6 +993,7 @@ def c10(g, tier):
     yield from midsize_sessions(g, "C10/mid", ["sdes"])
     yield from item_type_sweep(g, "C10/types")
     yield from many_chunks_sessions(g, "C10/chunks")
+    yield from giant_chunk_sessions(g, "C10/giant")
     for i in range(3000 if q else 100000):
         nw = r.randrange(0, 7)
         body = [r.choice([0, 0, 0, 1, 2, 3, 8, 65, r.randrange(256)]) for _ in range(4 * nw)]
